@@ -57,6 +57,14 @@ def make_problem(dim, criteria, n_constraints=0, bounds=None, tols=None, extra_p
     return prob
 
 
+class InjectedRuntime(RuntimeError):
+    pass
+
+
+class InjectedTimeout(TimeoutError):
+    pass
+
+
 class Oracle(object):
     """Call log + Ackermannised uninterpreted functions."""
 
@@ -100,10 +108,12 @@ class Oracle(object):
         if fault != 'ok':
             self.nfault += 1
             self.calls.append((vec, None, fault))
+            # "raises TimeoutError or RuntimeError" includes their subclasses (a solver wrapper's own SolverCrashed(RuntimeError),
+            # NotImplementedError, ...): every second injected failure is an instance of a subclass
             if fault == 'timeout':
-                raise TimeoutError('injected')
+                raise (InjectedTimeout if j % 2 else TimeoutError)('injected')
             if fault == 'runtime':
-                raise RuntimeError('injected')
+                raise (InjectedRuntime if j % 2 else RuntimeError)('injected')
             raise OtherError('injected')
         vals = [ctx.real('F%d_call%d' % (k, j)) for k in range(self.n_obj)]
         if getattr(self, 'may_be_inf', False) and ctx.choice('F0_is_inf_call%d' % j, 2) == 1:
